@@ -1,6 +1,7 @@
 """R-C01-foldid: the post-parse folds (file-id assignment and the late-bound resolvers run on every library) rebuild each
 node as the same kind: in every enum's recurse_fold, the arm that matched variant V constructs variant V again, and a
 struct's recurse_fold rebuilds the same struct with every field taken from the same-named field (or its fold)."""
+import re
 from vlib.mir import norm, op_place, switch_info
 
 
@@ -117,7 +118,8 @@ def run_partial(ctx, rep):
             m = loc_macro(c.loc)
             if m and m[0] in ("Bang:parser", "Derive:Logos"):
                 continue
-            ga = c.ga or ""
+            # diagnostics are not parsed nodes (parse_program's contract is "the first diagnostic")
+            ga = re.sub(r"ironplc_dsl::diagnostic::\w+", "", c.ga or "")
             if not ("ironplc_dsl::" in ga or "ironplc_parser::parser::" in ga or "ironplc_parser::vars::" in ga):
                 continue
             n += 1
@@ -152,7 +154,9 @@ def run_partial(ctx, rep):
 
 REVERSING = {"rev", "rfold", "try_rfold", "next_back", "nth_back", "rfind", "rposition", "reverse", "sort", "sort_by", "sort_by_key", "sort_unstable",
              "sort_unstable_by", "sort_unstable_by_key", "sort_by_cached_key", "swap", "swap_remove", "rotate_left", "rotate_right", "rsplit", "rchunks",
-             "last", "pop_front", "dedup", "dedup_by", "dedup_by_key"}
+             "last", "pop_front", "dedup", "dedup_by", "dedup_by_key",
+             # taking from the back / putting in at a position: `while let Some(x) = v.pop()` walks the list backwards (seed C10-F)
+             "pop", "pop_back", "push_front", "split_last", "rsplitn", "rsplit_once"}
 FORWARD = {"into_iter", "iter", "map", "collect", "fold", "next", "extend", "push", "flatten", "flat_map", "chain", "for_each", "filter_map", "cloned"}
 
 
@@ -172,7 +176,9 @@ def run_order(ctx, rep):
         cnt = {}
         for c in sorted(b.calls(), key=lambda c: (c.loc[0], c.loc[1])):
             nm = (c.callee or c.u or "").split("::")[-1]
-            if nm not in REVERSING and nm not in FORWARD:
+            if nm == "insert" and (c.callee or "").startswith("alloc::vec::Vec"):
+                nm = "Vec::insert"
+            elif nm not in REVERSING and nm not in FORWARD:
                 continue
             ga = (c.ga or "") + " " + (c.st or "")
             if not ("ironplc_dsl::" in ga or "ironplc_parser::parser::" in ga or "ironplc_parser::vars::" in ga or "ironplc_parser::token::Token" in ga):
@@ -181,7 +187,7 @@ def run_order(ctx, rep):
             if m and m[0] in ("Derive:Logos", "Derive:Recurse", "Derive:Debug", "Derive:PartialEq", "Derive:Clone"):
                 continue
             n += 1
-            if nm in REVERSING:
+            if nm in REVERSING or nm == "Vec::insert":
                 fn = norm(b.id).replace("ironplc_parser::", "").replace("ironplc_dsl::", "dsl::")
                 k = cnt[nm] = cnt.get(nm, 0) + 1
                 r.finding("%s|%s#%d" % (fn, nm, k), "%s:%d" % (b.f["file"], c.loc[0]),
